@@ -11,7 +11,8 @@ RULE = ('generated universes: required-side interfaces (DAG), classes with '
         'declarations, instances with direct declarations, provided-side '
         'interface DAG, DAG of 1-3 registries of either flavour, 1-15 '
         'registrations of arity 0-3 with interface / implementedBy(cls) / '
-        'None keys and names; lookup keys derived from registrations '
+        'None keys and names, in a third of the cases the lookup objects '
+        're-created over the stored registrations; lookup keys derived from registrations '
         '(descendants of the registered keys, ancestors of the registered '
         'provided) with p~0.8, free otherwise; oracle = admissible set of the '
         'reference model (exact answer when it has one element, membership '
@@ -63,7 +64,12 @@ def case_strategy(draw):
             lookups.append(['free', draw(IDX),
                             draw(st.lists(reguniv.spec_ref(), max_size=3)),
                             draw(IDX), draw(st.sampled_from(NAMES))])
-    return {'bp': bp, 'regs': regs, 'lookups': lookups}
+    # the lookup objects re-created over the existing registration data, as
+    # persistent registries do when they are loaded (their __setstate__
+    # calls _createLookup(), which rebuilds the table of extendors from the
+    # registry's contents instead of from the registration history)
+    return {'bp': bp, 'regs': regs, 'lookups': lookups,
+            'recreate': draw(st.integers(0, 2)) == 0}
 
 
 def strategy(cfg):
@@ -110,6 +116,14 @@ def run_case(case, cfg, out):
         U.regs[r].register(req, prov, name, v)
         M.register(r, req, prov, name, v)
         made.append((r, req, prov, name))
+
+    if case.get('recreate'):
+        out.tag('lookup_objects_recreated')
+        for reg in U.regs:
+            reg._createLookup()
+        for reg in U.regs:
+            reg.__bases__ = reg.__bases__
+            reg._v_lookup.changed(reg)
 
     DEFAULT = object()
     for lk in case['lookups']:
